@@ -157,10 +157,13 @@ ScanDef(st, fs, f, n) ==   \* a definition of n in visited file f
         wins ==
             IF Shared(fs, f) THEN s.k \in {"none", "undef", "lazy"} /\ s.vis = "default"
             ELSE IF s.k \notin {"def", "common"} THEN TRUE
-            ELSE IF d = "weak" THEN FALSE
+            (* among equals the first definition in COMMAND-LINE order wins (the property's wording), also
+               when the earlier file is a member that was extracted later than the other definition was seen *)
+            ELSE IF d = "weak" THEN s.k = "def" /\ s.weak /\ f < s.f
             ELSE IF s.k = "def" /\ s.weak THEN TRUE
-            ELSE IF IsCommon(d) THEN s.k = "common" /\ CSize(d) > CSize(D(fs, s.f, n))
-            ELSE s.k = "common"
+            ELSE IF IsCommon(d) THEN s.k = "common" /\ (CSize(d) > CSize(D(fs, s.f, n))
+                                                        \/ (CSize(d) = CSize(D(fs, s.f, n)) /\ f < s.f))
+            ELSE s.k = "common" \/ f < s.f
         keepw == IF Shared(fs, f) /\ s.k \in {"undef", "lazy"} THEN [new EXCEPT !.weak = s.weak] ELSE new
     IN [st EXCEPT !.sym[n] = IF wins THEN keepw ELSE [s EXCEPT !.vis = v]]
 
@@ -380,7 +383,7 @@ Analysis(fs, op, wantAll) ==
     IN [rule |-> rule, model |-> model,
         causes |-> QuirkCausesGiven(fs, op, model),
         loadDiv |-> RegOnly(fs, wantAll) # RegOnly(fs, sl),
-        shadow |-> ShadowClass(fs), commonLazy |-> CommonLazyClass(fs),
+        shadow |-> ShadowClass(fs), commonLazy |-> CommonLazyClass(fs), visShared |-> VisSharedClass(fs),
         thScanElf |-> ScanAgreesWithElfRule(fs, op),
         thFixpoints |-> VisSharedClass(fs) \/ RegOnly(fs, w0) = RegOnly(fs, LFP(fs, op)),
         thLoadDiv |-> sameLoaded \/ ShadowClass(fs) \/ CommonLazyClass(fs) \/ VisSharedClass(fs),
